@@ -253,8 +253,9 @@ class ElemSources:
     `L = []` followed by `L.append(item)` / `L.extend(items)` in loops.  A leaf is whatever cannot be reduced further.
     """
 
-    def __init__(self, ctx, fn: FuncInfo):
+    def __init__(self, ctx, fn: FuncInfo, order_matters: bool = False):
         self.ctx, self.fn = ctx, fn
+        self.order_matters = order_matters  # then set()/sorted() are not looked through: they become leaves
         self.r = ctx.resolver(fn)
         self.flow = ctx.flow(fn)
         self.parents = ctx.parents(fn)
@@ -316,7 +317,7 @@ class ElemSources:
             for v in e.values:
                 out += self.sources(v, depth - 1)
             return out
-        if isinstance(e, ast.Call) and isinstance(e.func, ast.Name) and e.func.id in ("list", "tuple", "sorted", "set", "iter") and len(e.args) >= 1:
+        if isinstance(e, ast.Call) and isinstance(e.func, ast.Name) and e.func.id in (("list", "tuple", "iter") if self.order_matters else ("list", "tuple", "sorted", "set", "iter")) and len(e.args) >= 1:
             return self.sources(e.args[0], depth - 1)
         if isinstance(e, ast.BinOp) and isinstance(e.op, ast.Add):
             return self.sources(e.left, depth - 1) + self.sources(e.right, depth - 1)
